@@ -200,7 +200,7 @@ PROPS["C13"] = {
 # ------------------------------------------------------------------ C25
 SPL = "physical::operators::spillable"
 PROPS["C25"] = {
-    "files": ["verus/c25_limit.vrs", "kani/spillable.rs"],
+    "files": ["verus/c25_limit.vrs", "kani/spillable.rs", "kani/sort.rs", "kani/inc/sort_carriers.rs"],
     "level": "proof",
     "explanation": "LIMIT/OFFSET arithmetic: LimitState::take_from and satisfied are copied verbatim and verified by Verus with RecordBatch as a carrier (num_rows, slice). With ghost `consumed` = input rows "
                    "seen so far, the counters satisfy skipped = min(consumed, skip), fetched = clamp(consumed - skip, 0, fetch), and the emitted batch is EXACTLY input rows "
@@ -208,9 +208,13 @@ PROPS["C25"] = {
                    "including fetch = 0, skip beyond the input and fetch = None. "
                    "Spilled sort (ExternalSortExec): three verbatim regions of spillable.rs are compiled against carriers and checked by Kani - the merge comparator closure (must be the order "
                    "sort_batch sorted the runs in: direction and NULLS FIRST/LAST per key), the spilled branch of execute (must apply the fetch the planner's Sort+Limit fusion hands it), "
-                   "and one step of the k-way merge loop as an inductive step (queued output rows must keep pointing at the rows that were chosen). All three failed on the pinned tree "
+                   "and one step of the k-way merge loop as an inductive step (queued output rows must keep pointing at the rows that were chosen). Both sort_batch functions (sort.rs: full sort and fused top-k; "
+                   "spillable.rs: every spilled run) are compiled whole against carriers that record what Arrow's lexsort is asked for: one column per key in key order with the key's direction, NULL placement and the fetch as limit. "
+                   "The three merge obligations failed on the pinned tree "
                    "(defects D10, D11, D15, repaired by fix: commits) and hold now.",
     "kani": [
+        H("physical::operators::sort", "sort_c::c25_kx_sort_batch_asks_arrow_for_the_stated_order", "sort::sort_batch (whole body; the full sort and the fused top-k of SortExec)", "Arrow's lexsort is asked for one sort column per ORDER BY key, in key order, evaluated from that key's expression, descending exactly for DESC, nulls_first exactly for NULLS FIRST, limit == fetch; every output column is the input column taken with those indices, in column order; an empty batch is returned as it is", lane="B", bound="<= 3 sort keys, <= 3 columns (every direction x NULL placement, every fetch, every row count)"),
+        H(SPL, "sortb_c::c25_kx_run_sort_batch_asks_arrow_for_the_stated_order", "spillable::sort_batch (whole body; sorts every spilled run)", "same request for every run, without a limit", lane="B", bound="<= 3 sort keys, <= 3 columns"),
         H(SPL, "rows_c::c25_kx_compare_key_is_key_order", "streaming_k_way_merge::compare_rows (body of the per-key loop)", "for one sort key, every direction x NULL placement x cell state: a non-Equal result is the key's run order, Equal exactly on ties (loop-free, full domain)", lane="KX"),
         H(SPL, "rows_c::c25_kx_compare_rows_is_run_order", "streaming_k_way_merge::compare_rows (closure body)", "lexicographic over the keys with each key's direction and NULL placement = the order sort_batch gave the runs (make_comparator by Arrow's contract)", lane="B", bound="<= 2 sort keys"),
         H(SPL, "rows_c::c25_kx_compare_rows_is_run_order_k3", "streaming_k_way_merge::compare_rows (closure body)", "same, up to three sort keys", lane="B", bound="<= 3 sort keys", tier="thorough"),
@@ -230,7 +234,7 @@ PROPS["C25"] = {
         "assumed contract on arrow::array::make_comparator(l, r, SortOptions{descending, nulls_first}) and on lexsort_to_indices: both order values ascending (reversed when descending) and NULLs first iff nulls_first - the carrier in kani/spillable.rs::rows_c states it",
         "carriers (R6) for the spilled-sort regions: RecordBatch = a range of rows (num_rows, slice with its bounds precondition asserted), Vec = small list, run readers yield the following batches of their run, build_merged_batch = take(row i of the batch currently in run_buffers[run]); evaluate_expr / read_parquet / merge_runs are oracles",
     ],
-    "not_under_contract": ["SortExec / lexsort (Arrow's sort is the dependency's)", "Sort+Limit fusion in planner.rs (its reliance on the operator's fetch is what D11 is about)", "the minimum search across runs and build_merged_batch / build_merged_batch_final bodies (Arrow take/concat)", "multi_pass_merge file handling", "bind_order_by default NullsLast"],
+    "not_under_contract": ["Arrow's lexsort_to_indices / take themselves (the dependency's: what they are ASKED for is under contract, not what they do)", "SortExec::execute around sort_batch (input collection, concat_batches, Utf8 promotion)", "Sort+Limit fusion in planner.rs (its reliance on the operator's fetch is what D11 is about)", "the minimum search across runs and build_merged_batch / build_merged_batch_final bodies (Arrow take/concat)", "multi_pass_merge file handling", "bind_order_by default NullsLast"],
     "technique": "Verus on the verbatim LimitState methods with RecordBatch as a carrier type and a ghost consumed-rows counter; Kani on three verbatim regions of the spilled sort compiled against carrier types (bounded in list lengths, labelled)",
     "level_text": "Deductive and unbounded for LIMIT/OFFSET: every skip/fetch pair, every batch size and every split of the input into batches.",
     "level_note": "Trusted: Verus/Z3; two carrier contracts on arrow RecordBatch; the async unfold loop and Arrow's sort kernels are outside.",
@@ -242,8 +246,7 @@ _C21_SLOW = ("merge_min", "merge_max", "update_i64_min", "update_i64_max", "upda
              "update_scalar_f64_min", "update_scalar_f64_max", "update_scalar_i64_min", "update_scalar_i64_max", "c21_m_finalize_avg")
 
 
-_C21_REAL_TYPE_KEPT = ("c21_m_update_i64_min", "c21_m_update_i64_max", "c21_m_update_f64_min", "c21_m_update_f64_max",
-                       "c21_m_merge_min", "c21_m_merge_max", "c21_m_update_scalar_i64_min", "c21_m_update_scalar_i64_max")
+_C21_REAL_TYPE_KEPT = ("c21_m_update_i64_min", "c21_m_update_f64_max", "c21_m_merge_min", "c21_m_merge_max")
 
 
 def _c21_harnesses():
@@ -260,9 +263,10 @@ def _c21_harnesses():
         if n in _C21_REAL_TYPE_KEPT:
             pass
         elif any(t in n for t in _C21_SLOW) and n != "c21_m_finalize_avg_null_rule":
-            # MIN/MAX on the real ScalarValue type: 15-22 GB and 4-14 min of CBMC EACH (measured; eight in parallel were
-            # OOM-killed). The thorough tier keeps the eight base cases below, two at a time; the `_empty*` starts and the
-            # f64 ScalarValue slow path are decided on the carrier instance (c21_c_*), which is the same impl text.
+            # MIN/MAX on the real ScalarValue type: 15-29 GB and 4-14 min of CBMC EACH (measured; eight in parallel were
+            # OOM-killed, two in parallel reached 58 GB of 62). The thorough tier keeps four base cases, one at a time
+            # (`heavy`); the other starts and the ScalarValue slow path are decided on the carrier instance (c21_c_*),
+            # which is the same impl text.
             continue
         slow = any(t in n for t in _C21_SLOW) and n != "c21_m_finalize_avg_null_rule"
         if "_new_" in n:
@@ -281,7 +285,10 @@ def _c21_harnesses():
             fn, c = "AccumulatorState::merge", "alpha(a') = alpha(a) (+) alpha(b): counts and sums add, seen = sa || sb, min/max of options (empty is the identity)"
         else:
             fn, c = "AccumulatorState::finalize", "Count -> Int64(cnt); Sum/SumInt -> NULL iff !seen; Avg -> NULL iff count==0 else sum/count; Min/Max -> NULL iff empty"
-        out.append(H(MAG, n, fn, c, tier="thorough" if slow else "quick"))
+        h = H(MAG, n, fn, c, tier="thorough" if slow else "quick")
+        if slow:
+            h["heavy"] = True
+        out.append(h)
     cm = MAG + "::verif_kani::carr"
     car = "whole `impl AccumulatorState` + compare_scalar_values compiled verbatim against a carrier ScalarValue"
     out.append({"name": cm + "::c21_c_merge_min_max", "fn": "AccumulatorState::merge (" + car + ")", "contract": "MIN/MAX merge: empty is the identity, a value is never lost to an empty side, result is the smaller/larger; Int64/Utf8/Date32/Float64, every empty/non-empty combination", "lane": "KX", "bound": None, "tier": "quick", "finding": None})
@@ -300,7 +307,6 @@ PROPS["C21"] = {
                    "SUM/AVG/MIN/MAX exactly when no non-NULL input was seen. By induction every batch split and merge order gives the SQL value (pen and paper, two lines).",
     "kani": _c21_harnesses(),
     "harness_timeout": {"quick": "6m", "thorough": "25m"},
-    "jobs": {"thorough": 2},   # the real-type MIN/MAX obligations need 15-22 GB each
     "trusted_base": [
         "stub: derived ScalarValue::clone replaced by an identical clone on the scalar variants used (Null/Boolean/Int32/Int64/Float64/Date32); any other variant fails the harness",
         "harness floats are bounded in magnitude (<= 1e300) so that sums stay finite: floating overflow is engine-defined and outside the property",
